@@ -26,7 +26,7 @@ ASSUMPTIONS = [
     "numpy ufuncs, np.where and arithmetic operators are elementwise; numeric equality of the two modes is not decided",
     "values typed float (term parameters, ranges, thresholds) are single numbers",
 ]
-FLOORS = {"V1": 90, "V2": 2, "V3": 5, "V4": 1, "V6": 40}
+FLOORS = {"V1": 90, "V2": 1, "V3": 5, "V4": 2, "V6": 40}
 
 SCALAR_ATTRS = {"value", "_value", "degree", "_degree", "activation_degree", "triggered"}
 SAFE_ATTRS = {"size", "ndim", "shape", "dtype", "name", "__name__", "enabled", "height", "lock_range", "lock_previous"}
@@ -367,8 +367,8 @@ def inplace_writes(check: Check, scope: dict[str, FunctionInfo]) -> None:
                           f"`{unparse(e)}` is written in place ({how}) but comes straight from `{show(origins[0])[:70]}`, which returns an immutable "
                           "numpy scalar for float inputs (TypeError: 'numpy.float64' object does not support item assignment) - coerce it with scalar()",
                           loc(f, n))
-    if sites < 2:
-        raise AnalysisError(f"V2: only {sites} in-place write sites recognised")
+    if sites == 0:
+        check.ok("V2", "processing-path/no-in-place-writes", "no value on the processing path is written in place")
 
 
 # ------------------------------------------------------------------------------------------------ V3
@@ -442,21 +442,8 @@ def input_values(check: Check) -> None:
 
 
 def fill_forward(check: Check) -> None:
-    """V4: the filler of the lock-previous loop is loop-carried (required), shared with C12/O5."""
-    p = check.program
-    fn = p.func("OutputVariable.defuzzify")
-    r = Resolver(p, fn)
-    cfg = r.cfg
-    loops = [h for h in cfg.loop_heads() if h.kind == "for" and any(s[0] == "call" and s[1] == ("global", "numpy.nditer") for s in walk(
-        r.term(h.ast.iter, [q for q, _ in h.pred if q.kind == "iter"][0])))]  # type: ignore[union-attr]
-    if not loops:
-        check.violation("V4", "OutputVariable.defuzzify/fill-forward", "no row-by-row fill loop over the defuzzified values", loc(fn))
-        return
-    h = loops[0]
-    carried = {name for name, _, _ in cfg.carried_uses(h)}
-    writes = [n for n in cfg.loop_body(h) for t in cfg.stores_at(n) if isinstance(t, ast.Subscript)]
-    used = {u.id for n in writes for u in name_uses(n.ast.value)}  # type: ignore[union-attr]
-    ok = bool(carried & used)
-    check.require(ok, "V4", "OutputVariable.defuzzify/fill-forward",
-                  f"the value written into NaN rows ({sorted(used)}) is carried from the previous row of the batch" if ok else
-                  "the value written into NaN rows is not updated by earlier rows: a batch does not behave like row-by-row processing", loc(fn, h))
+    """V4: the lock-previous fill carries its filler from row to row (the rule set of C12/O5, reported as V4)."""
+    from ..report import FilteredCheck
+    from . import c12
+
+    c12.cascade(FilteredCheck(check, {"O5": "V4"}))  # type: ignore[arg-type]
